@@ -14,6 +14,7 @@ import (
 	"runtime"
 	"sort"
 	"strings"
+	"sync"
 	"sync/atomic"
 	"testing"
 	"time"
@@ -24,15 +25,23 @@ import (
 )
 
 type c14bufProv struct {
-	gate   *zzc14.Gate
-	closed atomic.Int32
-	calls  atomic.Int32
+	gate     *zzc14.Gate
+	closed   atomic.Int32
+	calls    atomic.Int32
+	stuckAt  int32 // >0: the stuckAt-th wrapped call returns only when the wrapped provider is closed
+	closedCh chan struct{}
+	once     sync.Once
 }
 
 var errC14BufClosed = errors.New("c14: wrapped provider closed")
 
 func (p *c14bufProv) do(kind string) error {
-	p.calls.Add(1)
+	n := p.calls.Add(1)
+	if p.stuckAt > 0 && n == p.stuckAt {
+		// like a real SweepingProvider whose keystore is busy: the call only ends with the provider's own shutdown
+		<-p.closedCh
+		return errC14BufClosed
+	}
 	c := p.gate.Park(nil, "prov:"+kind, "")
 	if p.closed.Load() > 0 {
 		return errC14BufClosed
@@ -49,6 +58,7 @@ func (p *c14bufProv) RefreshSchedule() error                   { return p.do("re
 func (p *c14bufProv) Close() error {
 	p.gate.Park(nil, "prov:close", "")
 	p.closed.Add(1)
+	p.once.Do(func() { close(p.closedCh) })
 	return nil
 }
 
@@ -61,6 +71,7 @@ type c14bufCase struct {
 	closeDelay int
 	conc2      bool
 	strat      int
+	stuckAt    int // >0: that wrapped call hangs until the wrapped provider is closed
 }
 
 func c14bufRun(r *vfRand, c *c14bufCase, tr *zzc14.Trace) (*zzc14.Plan, string) {
@@ -71,7 +82,7 @@ func c14bufRun(r *vfRand, c *c14bufCase, tr *zzc14.Trace) (*zzc14.Plan, string) 
 		dsGate.Open.Store(true)
 	}
 	store := zzc14.NewStore("q", dsGate)
-	inner := &c14bufProv{gate: gate}
+	inner := &c14bufProv{gate: gate, stuckAt: int32(c.stuckAt), closedCh: make(chan struct{})}
 	var s *SweepingProvider
 	func() {
 		defer func() {
@@ -144,6 +155,9 @@ func c14bufGen(r *vfRand, i int) *c14bufCase {
 		c.closeAt = r.Intn(4 + 6*len(c.ops))
 	}
 	c.conc2 = r.Chance(35)
+	if len(c.ops) > 0 && r.Chance(25) {
+		c.stuckAt = 1 + r.Intn(len(c.ops))
+	}
 	if len(c.ops) > 0 && r.Chance(55) {
 		c.closeOp1, c.closeDelay = 1+r.Intn(len(c.ops)), 1+r.Intn(4)
 	}
@@ -169,7 +183,7 @@ func TestVerifC14Buffered(t *testing.T) {
 			continue
 		}
 		c := c14bufGen(r, i)
-		desc := map[string]any{"case": zzc14.CaseID(7, i), "seed": seed, "pkg": "provider/buffered", "comp": "buffered", "batch": c.batch, "gatedDatastore": c.gatedDs, "ops": c.ops,
+		desc := map[string]any{"case": zzc14.CaseID(7, i), "seed": seed, "pkg": "provider/buffered", "comp": "buffered", "batch": c.batch, "stuckCall": c.stuckAt, "gatedDatastore": c.gatedDs, "ops": c.ops,
 			"closeAt": c.closeAt, "closeOp1": c.closeOp1, "closeDelay": c.closeDelay, "concurrent2": c.conc2, "strategy": c.strat}
 		curDesc = desc
 		tr := &zzc14.Trace{}
